@@ -1,7 +1,7 @@
 from vlib.core import *
 
 META = dict(
-    level_text="Proved for all integers n, nev, ncv: each solver family's constructor guard accepts exactly the documented range and every rejection is std::invalid_argument (c12_herm_iff for both HermEigsBase overloads, c12_gen_iff, c12_jd_iff, c12_svd_iff), the stored ncv equals the argument when accepted (c12_*_ncv), buckling/Cayley reject exactly sigma = 0 (c12_sigma, any ordered field), the accepted selection/sorting rule sets are the documented ones (c12_rules), every matrix-operation wrapper of MatOp/ accepts exactly its documented shapes for all integer rows/cols and rejects the rest with invalid_argument (c12_wrap_<Class> for the 13 square-only wrappers and the 2 general products, c12_wrap_SymShiftInvert: accepted iff A.rows = A.cols = B.rows = B.cols, with size() translated as rows*cols), a generalized solver on two operators of one common size n validates (nev, ncv) against that n in every GEigsMode (c12_geigs_iff_partial; partial: operators of different sizes are NOT rejected by the code, finding F22), and no constructor in namespace Spectra holds a raw `new` result across a later throwing action, so a rejected constructor leaks nothing under the C++ unwinding model (c12_ctor_unwind, c12_no_raw_no_leak, c12_no_leak). All guard functions (solver constructors, every MatOp wrapper constructor, the SymGEigs*Op adapters and their rows()) and the raw-new footprint are regenerated from the headers on every run. The tie to the running code is the exhaustive sweep the property names: every solver class x n in 1..12 x (nev,ncv) in [-2,n+3]^2, every wrapper constructor x every shape rows, cols in 0..5 (SymShiftInvert: the shapes of A and B independently, all four dense/sparse pairings) x Uplo/storage-order/scalar variants, generalized solvers x every pair of operator sizes 1..6 x every mode, general solvers over non-square operators, sigma = 0, zero start vector, all nine rules, with a live-heap-block counter.",
+    level_text="Proved for all integers n, nev, ncv: each solver family's constructor guard accepts exactly the documented range and every rejection is std::invalid_argument (c12_herm_iff for both HermEigsBase overloads, c12_gen_iff, c12_jd_iff, c12_svd_iff), the stored ncv equals the argument when accepted (c12_*_ncv), buckling/Cayley reject exactly sigma = 0 (c12_sigma, any ordered field), the accepted selection/sorting rule sets are the documented ones (c12_rules), every matrix-operation wrapper of MatOp/ accepts exactly its documented shapes for all integer rows/cols and rejects the rest with invalid_argument (c12_wrap_<Class> for the 13 square-only wrappers and the 2 general products, c12_wrap_SymShiftInvert: accepted iff A.rows = A.cols = B.rows = B.cols, with size() translated as rows*cols), the general family additionally rejects a non-square operator whatever (nev, ncv) are (c12_gen_iff with the operator's column count, c12_gen_nonsquare_rejected; finding F23, repaired in /repo), a generalized solver on two operators of sizes a, b is accepted in every GEigsMode iff a = b and (nev, ncv) is in the symmetric range for that common size, every other combination throwing invalid_argument (c12_geigs_adapter, c12_geigs_iff, c12_geigs_mismatch_rejected: the full statement since the repair of finding F22; c12_geigs_iff_partial is the equal-size corollary), and no constructor in namespace Spectra holds a raw `new` result across a later throwing action, so a rejected constructor leaks nothing under the C++ unwinding model (c12_ctor_unwind, c12_no_raw_no_leak, c12_no_leak). All guard functions (solver constructors, every MatOp wrapper constructor, the SymGEigs*Op adapters and their rows()) and the raw-new footprint are regenerated from the headers on every run. The tie to the running code is the exhaustive sweep the property names: every solver class x n in 1..12 x (nev,ncv) in [-2,n+3]^2, every wrapper constructor x every shape rows, cols in 0..5 (SymShiftInvert: the shapes of A and B independently, all four dense/sparse pairings) x Uplo/storage-order/scalar variants, generalized solvers x every pair of operator sizes 1..6 x every mode, general solvers over non-square operators, sigma = 0, zero start vector, all nine rules, with a live-heap-block counter.",
     note="Lean kernel + standard axioms; translator; the C++ object-lifetime rule for a throwing constructor is modelled (leakedAt), not verified; global operator new/delete counters see only allocations made through operator new (Eigen's aligned_malloc is handmade_aligned_malloc->malloc and is checked by matching frees only in the ASan builds of other properties)",
     technique="Lean 4 proof (omega, decide) on source-translated guards + exhaustive enumeration on the implementation",
     design="§5 C12", harnesses=[{'name': 'c12', 'sanitize': False, 'opt': '-O0'}])
